@@ -1,27 +1,32 @@
 #!/usr/bin/env python3
-"""Run every seeded change under /verif/seeded against its property's check (patch applied to /repo, then reverted).
+"""Run every seeded change under /verif/seeded against its property's check.  The patch is applied to a scratch git worktree of
+/repo's HEAD (outside /repo and /verif, removed afterwards) and the check is pointed at it with VPV_REPO, so /repo is never touched.
 Not a registered command; records the outcome in seeded/<id>/meta.json (detected / missed / undecided)."""
 import os, sys, json, subprocess, glob, re
-only = sys.argv[1:] 
-for d in sorted(glob.glob("/verif/seeded/*")):
-    name = os.path.basename(d)
-    if only and name not in only and name.split("-")[0] not in only: continue
-    prop = name.split("-")[0]
-    st = subprocess.run(["git", "-C", "/repo", "status", "--porcelain", "--untracked-files=no"], capture_output=True, text=True).stdout.strip()
-    if st:
-        print("refusing: /repo is dirty"); sys.exit(2)
-    r = subprocess.run(["git", "-C", "/repo", "apply", os.path.join(d, "patch.diff")], capture_output=True, text=True)
-    if r.returncode != 0:
-        print(name, "PATCH DOES NOT APPLY", r.stderr[:200]); continue
-    try:
-        p = subprocess.run(["/verif/bin/vcheck", prop] + (["--dev"] if os.environ.get("VPV_DEV") else []), capture_output=True, text=True, cwd="/verif")
-    finally:
-        subprocess.run(["git", "-C", "/repo", "checkout", "--", "."])
-    viol = re.findall(r"^VIOLATION .*obligation=(.*)$", p.stdout, re.M)
-    outcome = "detected" if p.returncode == 1 and viol else ("undecided(exit 2)" if p.returncode == 2 else "missed")
-    meta = json.load(open(os.path.join(d, "meta.json")))
-    meta["check_outcome"] = dict(outcome=outcome, exit_code=p.returncode, violated_obligations=viol[:6], n_violations=len(viol),
-                                 summary=(p.stdout.strip().splitlines() or [""])[-1][:300], stderr_tail=p.stderr.strip()[-300:])
-    meta["detected_by"] = (f"bin/vcheck {prop}: " + "; ".join(viol[:3])) if outcome == "detected" else None
-    json.dump(meta, open(os.path.join(d, "meta.json"), "w"), indent=1)
-    print(name, outcome, viol[:2])
+only = sys.argv[1:]
+WT = os.environ.get("VPV_SEEDED_WT", "/var/tmp/vpv-seeded-wt")
+def git(*a, **k): return subprocess.run(["git"] + list(a), capture_output=True, text=True, **k)
+git("-C", "/repo", "worktree", "remove", "--force", WT)
+r = git("-C", "/repo", "worktree", "add", "--detach", WT, "HEAD")
+if r.returncode != 0: print(r.stderr); sys.exit(2)
+try:
+    for d in sorted(glob.glob("/verif/seeded/*")):
+        name = os.path.basename(d)
+        if only and name not in only and name.split("-")[0] not in only: continue
+        prop = name.split("-")[0]
+        git("-C", WT, "checkout", "--", "."); git("-C", WT, "clean", "-fdq")
+        r = git("-C", WT, "apply", os.path.join(d, "patch.diff"))
+        if r.returncode != 0:
+            print(name, "PATCH DOES NOT APPLY", r.stderr[:200]); continue
+        env = dict(os.environ, VPV_REPO=WT)
+        p = subprocess.run(["/verif/bin/vcheck", prop] + (["--dev"] if os.environ.get("VPV_DEV") else []), capture_output=True, text=True, cwd="/verif", env=env)
+        viol = re.findall(r"^VIOLATION .*obligation=(.*)$", p.stdout, re.M)
+        outcome = "detected" if p.returncode == 1 and viol else ("undecided(exit 2)" if p.returncode == 2 else "missed")
+        meta = json.load(open(os.path.join(d, "meta.json")))
+        meta["check_outcome"] = dict(outcome=outcome, exit_code=p.returncode, violated_obligations=viol[:6], n_violations=len(viol),
+                                     summary=(p.stdout.strip().splitlines() or [""])[-1][:300], stderr_tail=p.stderr.strip()[-300:])
+        meta["detected_by"] = (f"bin/vcheck {prop}: " + "; ".join(viol[:3])) if outcome == "detected" else None
+        json.dump(meta, open(os.path.join(d, "meta.json"), "w"), indent=1)
+        print(name, outcome, viol[:2], flush=True)
+finally:
+    git("-C", "/repo", "worktree", "remove", "--force", WT)
